@@ -109,8 +109,8 @@ func TestReplay(t *testing.T) {
 		}
 		rp, ok := replayers[v.Oracle]
 		if !ok {
-			if v.Oracle == "mock" || v.Oracle == "c10" {
-				continue // replayed by the mockreg / racecheck binaries
+			if v.Oracle == "mock" || v.Oracle == "c10" || v.Oracle == "c18gen" {
+				continue // replayed by the mockreg / racecheck / generator binaries
 			}
 			t.Fatalf("%s: no replayer for oracle %q", f, v.Oracle)
 		}
